@@ -1,5 +1,5 @@
 """C08  Threads of a parallel benchmark enter and leave timed sections together."""
-from lib.facts import norm, direct_place, const_int
+from lib.facts import norm, direct_place, const_int, nophi
 from lib.paths import Explorer, call_sequences
 from lib import tables
 from .common import Recorder
